@@ -95,3 +95,18 @@ package api
 //@   props C15
 //@   requires a > 0
 //@   ensures div(a * a, a) == a
+
+// ---- addresses (trusted: byte-array equality) ----
+
+//@ func Address.Equal
+//@   trusted
+//@   pure
+//@   ensures result == (a == cmp)
+
+//@ func Address.IsValid
+//@   trusted
+//@   pure
+
+//@ func Address.IsReserved
+//@   trusted
+//@   pure
